@@ -43,6 +43,8 @@ def case_strategy(draw):
         "thr": draw(gen.threshold(metric)),
         "thr2": draw(gen.threshold(metric)),
         "m2o": draw(st.booleans()),
+        # the pair object has been matched before by a matcher with this metric (None: fresh pair object)
+        "reuse": draw(st.sampled_from([None, None, "IOU", "DSC", "ASSD"])),
     }
 
 
@@ -82,12 +84,18 @@ def enumerations(tier):
     return [("1d_pairs_over_012", g())]
 
 
-def run_matcher(pred, ref, metric, thr, m2o):
+def run_matcher(pred, ref, metric, thr, m2o, reuse=None):
     from panoptica.utils.processing_pair import UnmatchedInstancePair
 
     mt = lib.matcher({"kind": "naive", "metric": metric, "thr": thr, "m2o": m2o})
     pc, rc = pred.copy(), ref.copy()
-    out = H.lib_call(lambda: mt.match_instances(UnmatchedInstancePair(pred, ref)))
+    pair = H.lib_call(lambda: UnmatchedInstancePair(pred, ref))
+    if reuse:
+        other = lib.matcher({"kind": "naive", "metric": reuse, "thr": 0.5, "m2o": not m2o})
+        H.lib_call(lambda: other.match_instances(pair))
+        # ... and the matcher object has matched another pair of the same shape before
+        H.lib_call(lambda: mt.match_instances(UnmatchedInstancePair(ref[::-1].copy(), pred[::-1].copy())))
+    out = H.lib_call(lambda: mt.match_instances(pair))
     if not (np.array_equal(pred, pc) and np.array_equal(ref, rc)):
         raise Violation("matcher modified its input arrays")
     return out
@@ -138,7 +146,9 @@ def check(case, stats):
         classes.append("tied_competitors")
     stats.record(case, nontrivial, classes)
 
-    out = run_matcher(pred, ref, metric, thr, m2o)
+    out = run_matcher(pred, ref, metric, thr, m2o, case.get("reuse"))
+    if case.get("reuse"):
+        stats.count("pair_object_matched_before")
     if not np.array_equal(np.asarray(out.reference_arr), ref):
         raise Violation("matching changed the reference map")
     assign, amap = read_assignment(out, pred, ref, set(rin))
